@@ -1,12 +1,14 @@
 package rules
 
 import (
+	"os"
 	"fmt"
 	"go/constant"
 	"go/token"
 	"go/types"
 	"sort"
 	"strings"
+	"verif/checker/core"
 
 	"golang.org/x/tools/go/ssa"
 )
@@ -170,11 +172,178 @@ func linOf(v ssa.Value) Lin {
 		if x.Call.IsInvoke() && len(x.Call.Args) == 0 {
 			return linAtom(canon(x.Call.Value) + "." + x.Call.Method.Name() + "()")
 		}
+		if l, ok := inlineCallLin(x, 0); ok {
+			return l
+		}
 		if f := x.Call.StaticCallee(); f != nil && f.Signature.Recv() != nil && len(x.Call.Args) == 1 {
 			return linAtom(canon(x.Call.Args[0]) + "." + f.Name() + "()")
 		}
 	}
 	return linAtom("%" + v.Name())
+}
+
+var inlineDepth int
+
+// inlineCallLin: the affine form of a call to a small module function whose single result is an affine
+// expression of its parameters and of fields reached from them (z.Len(), z.remaining(pos), …), expressed in
+// the caller's terms. Functions that store, branch or call anything but len/cap are not inlined.
+func inlineCallLin(c *ssa.Call, depth int) (Lin, bool) {
+	f := c.Call.StaticCallee()
+	if os.Getenv("PCHECK_INLDEBUG") != "" && f != nil {
+		fmt.Fprintf(os.Stderr, "INLINE? %s blocks=%d depth=%d\n", f.Name(), len(f.Blocks), inlineDepth)
+	}
+	if f == nil || c.Call.IsInvoke() || len(f.Blocks) != 1 || fnPkg(f) == nil || !core.InModule(fnPkg(f)) || inlineDepth > 3 {
+		return Lin{}, false
+	}
+	ret, ok := lastInstr(f.Blocks[0]).(*ssa.Return)
+	if !ok || len(ret.Results) != 1 || !isIntType(ret.Results[0].Type()) {
+		return Lin{}, false
+	}
+	for _, in := range f.Blocks[0].Instrs {
+		switch x := in.(type) {
+		case *ssa.Store, *ssa.MapUpdate, *ssa.Send, *ssa.Go, *ssa.Defer:
+			return Lin{}, false
+		case *ssa.Call:
+			if b, isB := x.Call.Value.(*ssa.Builtin); isB && (b.Name() == "len" || b.Name() == "cap") {
+				continue
+			}
+			inlineDepth++
+			_, ok := inlineCallLin(x, depth+1)
+			inlineDepth--
+			if !ok {
+				return Lin{}, false
+			}
+		}
+	}
+	inlineDepth++
+	l := linOf(ret.Results[0])
+	inlineDepth--
+	out, ok := substParams(l, f, c.Call.Args)
+	if os.Getenv("PCHECK_INLDEBUG") != "" {
+		fmt.Fprintf(os.Stderr, "INLINED %s: %s -> %s ok=%v\n", f.Name(), l, out, ok)
+	}
+	return out, ok
+}
+
+// substParams rewrites a Lin over the callee's parameter names into the caller's terms.
+func substParams(l Lin, f *ssa.Function, args []ssa.Value) (Lin, bool) {
+	out := linConst(l.C)
+	for atom, cf := range l.T {
+		if strings.Contains(atom, "%") {
+			return Lin{}, false // refers to a callee-local temporary
+		}
+		replaced := false
+		for i, p := range f.Params {
+			if i >= len(args) {
+				break
+			}
+			if atom == p.Name() {
+				out = out.add(linOf(args[i]), cf)
+				replaced = true
+				break
+			}
+		}
+		if replaced {
+			continue
+		}
+		na := atom
+		for i, p := range f.Params {
+			if i >= len(args) {
+				break
+			}
+			na = replaceWord(na, p.Name(), canon(args[i]))
+		}
+		if strings.Contains(na, "%") {
+			return Lin{}, false
+		}
+		out = out.add(linAtom(na), cf)
+	}
+	return out, true
+}
+
+// replaceWord replaces whole-identifier occurrences of old in s.
+func replaceWord(s, old, new string) string {
+	if old == "" || old == new {
+		return s
+	}
+	var sb strings.Builder
+	isId := func(c byte) bool {
+		return c == '_' || c >= '0' && c <= '9' || c >= 'a' && c <= 'z' || c >= 'A' && c <= 'Z'
+	}
+	for i := 0; i < len(s); {
+		if strings.HasPrefix(s[i:], old) && (i == 0 || !isId(s[i-1]) && s[i-1] != '.') && (i+len(old) == len(s) || !isId(s[i+len(old)])) {
+			sb.WriteString(new)
+			i += len(old)
+			continue
+		}
+		sb.WriteByte(s[i])
+		i++
+	}
+	return sb.String()
+}
+
+// callResultFacts: facts about the arguments of a call that hold whenever the call returned the constant k
+// (every return of k in the callee is dominated by them), in the caller's terms.
+func callResultFacts(c *ssa.Call, k int64) []Fact {
+	f := c.Call.StaticCallee()
+	if f == nil || c.Call.IsInvoke() || len(f.Blocks) == 0 || fnPkg(f) == nil || !core.InModule(fnPkg(f)) || inlineDepth > 2 {
+		return nil
+	}
+	var sets [][]Fact
+	for _, b := range f.Blocks {
+		ret, ok := lastInstr(b).(*ssa.Return)
+		if !ok || len(ret.Results) != 1 {
+			continue
+		}
+		kc, isC := ret.Results[0].(*ssa.Const)
+		if !isC || kc.Value == nil || kc.Value.Kind() != constant.Int {
+			return nil // a computed result: nothing can be said per value
+		}
+		if kc.Int64() != k {
+			continue
+		}
+		inlineDepth++
+		sets = append(sets, blockFacts(b))
+		inlineDepth--
+	}
+	if len(sets) == 0 {
+		return nil
+	}
+	var out []Fact
+	for _, ft := range sets[0] {
+		if ft.NE {
+			continue
+		}
+		common := true
+		for _, other := range sets[1:] {
+			if !entails(other, ft.L) {
+				common = false
+			}
+		}
+		if !common {
+			continue
+		}
+		if l, ok := substParams(ft.L, f, c.Call.Args); ok {
+			out = append(out, Fact{L: l})
+		}
+	}
+	return out
+}
+
+func stripIntConv(v ssa.Value) ssa.Value {
+	for {
+		switch x := v.(type) {
+		case *ssa.Convert:
+			if isIntType(x.X.Type()) && isIntType(x.Type()) {
+				v = x.X
+				continue
+			}
+		case *ssa.ChangeType:
+			v = x.X
+			continue
+		}
+		return v
+	}
 }
 
 func isIntType(t types.Type) bool {
@@ -229,34 +398,92 @@ func factsOfCond(cond ssa.Value, truth bool) []Fact {
 	return nil
 }
 
-// blockFacts returns the branch facts that hold on entry to block b: for every
-// dominator p of b that ends in an If whose successor s has p as its only
-// predecessor and dominates b, the condition with the corresponding truth.
+// factsOfAtom turns one atomic comparison that holds into facts (including what a constant result of a
+// module function implies about its arguments).
+func factsOfAtom(a condAtom) []Fact {
+	if !isIntType(a.x.Type()) {
+		return nil
+	}
+	x, y := linOf(a.x), linOf(a.y)
+	var out []Fact
+	switch a.op {
+	case token.LSS:
+		out = []Fact{{L: y.add(x, -1).add(linConst(1), -1)}}
+	case token.LEQ:
+		out = []Fact{{L: y.add(x, -1)}}
+	case token.GTR:
+		out = []Fact{{L: x.add(y, -1).add(linConst(1), -1)}}
+	case token.GEQ:
+		out = []Fact{{L: x.add(y, -1)}}
+	case token.EQL:
+		out = []Fact{{L: x.add(y, -1)}, {L: y.add(x, -1)}}
+		for _, pr := range [][2]ssa.Value{{a.x, a.y}, {a.y, a.x}} {
+			if c, ok := stripIntConv(pr[0]).(*ssa.Call); ok {
+				if k, isK := pr[1].(*ssa.Const); isK && k.Value != nil && k.Value.Kind() == constant.Int {
+					out = append(out, callResultFacts(c, k.Int64())...)
+				}
+			}
+		}
+	case token.NEQ:
+		out = []Fact{{L: x.add(y, -1), NE: true}}
+	}
+	return out
+}
+
+// blockFacts returns the branch facts that hold whenever block b executes (see guardsAt).
 func blockFacts(b *ssa.BasicBlock) []Fact {
 	var out []Fact
-	for p := b.Idom(); p != nil; p = p.Idom() {
-		iff, ok := p.Instrs[len(p.Instrs)-1].(*ssa.If)
-		if !ok || p.Succs[0] == p.Succs[1] {
+	atoms := guardsAt(b)
+	for _, a := range atoms {
+		out = append(out, factsOfAtom(a)...)
+	}
+	out = append(out, excludedResultFacts(atoms)...)
+	return strengthen(out)
+}
+
+// excludedResultFacts: a call of a helper that returns only constants, compared unequal to all of them but
+// one (the default arm of a switch on its result), returned that one.
+func excludedResultFacts(atoms []condAtom) []Fact {
+	excl := map[*ssa.Call]map[int64]bool{}
+	for _, a := range atoms {
+		if a.op != token.NEQ {
 			continue
 		}
-		for i, s := range p.Succs {
-			if len(s.Preds) == 1 && s.Dominates(b) {
-				out = append(out, factsOfCond(iff.Cond, i == 0)...)
+		for _, pr := range [][2]ssa.Value{{a.x, a.y}, {a.y, a.x}} {
+			c, ok := stripIntConv(pr[0]).(*ssa.Call)
+			k, isK := pr[1].(*ssa.Const)
+			if ok && isK && k.Value != nil && k.Value.Kind() == constant.Int {
+				if excl[c] == nil {
+					excl[c] = map[int64]bool{}
+				}
+				excl[c][k.Int64()] = true
 			}
 		}
 	}
-	return strengthen(out)
+	var out []Fact
+	for c, ex := range excl {
+		ks, ok := constResults(c)
+		if !ok {
+			continue
+		}
+		var left []int64
+		for _, k := range ks {
+			if !ex[k] {
+				left = append(left, k)
+			}
+		}
+		if len(left) == 1 {
+			out = append(out, callResultFacts(c, left[0])...)
+		}
+	}
+	return out
 }
 
 // edgeFacts are the facts holding when control goes from pred to succ.
 func edgeFacts(pred, succ *ssa.BasicBlock) []Fact {
 	out := blockFacts(pred)
-	if iff, ok := pred.Instrs[len(pred.Instrs)-1].(*ssa.If); ok && pred.Succs[0] != pred.Succs[1] {
-		for i, s := range pred.Succs {
-			if s == succ {
-				out = append(out, factsOfCond(iff.Cond, i == 0)...)
-			}
-		}
+	for _, a := range edgeAtoms(pred, succ, 0) {
+		out = append(out, factsOfAtom(a)...)
 	}
 	return strengthen(out)
 }
